@@ -101,14 +101,18 @@ def r2(c):
     tx = q.sem(b, add.args[1])
     c.ob('tracked-sender', tx.kind == 'call' and tx.cs is ch and 'field:0' in ''.join(tx.proj), 'tracker.add receives the sender half of the fresh channel', repr(tx), add.loc())
     c.ob('add-before-spawn', b.dominates(add.ret, sp.node), 'the session is recorded before it is spawned', '', sp.loc())
-    # the coroutine spawned runs run_session with the receiver half
-    inner = [x for x in P.nested(ST + '::handle') if x.calls('rodbus::tcp::server::run_session')]
-    ok = len(inner) == 1
-    if ok:
+    # the task spawned runs run_session with the receiver half
+    RS_ = 'rodbus::tcp::server::run_session'
+    inner = [x for x in P.nested(ST + '::handle') if x is not b and x.path != b.path and x.calls(RS_)]
+    direct = b.calls(RS_)
+    ok = False
+    if len(inner) == 1 and not direct:
+        # an async block of handle() calls it: the receiver is one of the block's captured variables
         ib = inner[0]
-        rs = one(ib.calls('rodbus::tcp::server::run_session'), 'run_session')
-        a = q.sem(ib, rs.args[5])
-        ok = a.kind == 'place' and a.local == 1      # an upvar of the async block
+        rs = one(ib.calls(RS_), 'run_session')
+        ok = len(rs.args) > 5
+        a = q.sem(ib, rs.args[5]) if ok else None
+        ok = ok and a.kind == 'place' and a.local == 1      # an upvar of the async block
         # which upvar: match with the aggregate that builds the async block in handle
         ag = [s for i, s in b.assigns() if s['rv']['r'] == 'agg' and norm(s['rv'].get('coroutine', '')) == ib.path]
         ok = ok and len(ag) == 1
@@ -121,6 +125,20 @@ def r2(c):
         nc = [cs for cs in ib.calls('tokio::sync::mpsc::bounded::Sender::send') if q.agg_variant_of(ib, cs.args[1]) or True]
         sclose = [s for i, s in ib.assigns() if s['rv']['r'] == 'agg' and s['rv'].get('adt', '').endswith('SessionClose')]
         c.ob('close-notified', len(nc) == 1 and len(sclose) == 1 and ib.dominates(rs.ret, nc[0].node), 'when run_session returns, SessionClose(id) is sent back to the server task', '', loc_of(ib))
+    elif len(direct) == 1 and not inner:
+        # handle() bundles what the session owns into a value and spawns its run method: the receiver is the `commands` field
+        rs = direct[0]
+        sv = q.sem(b, rs.args[0]) if rs.args else None
+        if sv is not None and sv.kind == 'agg' and isinstance(sv.extra, dict) and 'commands' in sv.extra.get('fields', []):
+            up = q.sem(b, sv.extra['a'][sv.extra['fields'].index('commands')])
+            ok = up.kind == 'call' and up.cs is ch and 'field:1' in ''.join(up.proj)
+        rb = P.fn(RS_)
+        sends = [cs for cs in rb.calls('tokio::sync::mpsc::bounded::Sender::send') if (q.agg_variant_of(rb, cs.args[1]) or ('', ''))[0].endswith('SessionClose') or
+                 (q.sem(rb, cs.args[1]).kind == 'agg' and str(q.sem(rb, cs.args[1]).extra.get('adt', '')).endswith('SessionClose'))]
+        okc = bool(sends) and q.always_passes(rb, rb.entry, {x.node for x in sends})[0]
+        c.ob('close-notified', okc, 'however the session ends, SessionClose(id) is sent back to the server task before its task finishes', '%d sends' % len(sends), loc_of(rb))
+        sp_arg = b.op_closure(sp.args[0])
+        ok = ok and any(x[0] == 'call' and x[2] == rs.block for x in sp_arg)
     c.ob('session-receiver', ok, 'the spawned session runs run_session with the receiver half of that same channel', '', loc_of(b))
     rsb = P.fn('rodbus::tcp::server::run_session')
     st = one(rsb.calls('rodbus::server::task::SessionTask::new'), 'SessionTask::new')
@@ -232,7 +250,8 @@ def r5(c):
     rs = P.fn('rodbus::tcp::server::run_session')
     c.ob('fresh-framing', len(rs.calls('rodbus::common::frame::FrameWriter::tcp')) == 1 and len(rs.calls('rodbus::common::frame::FramedReader::tcp')) == 1, 'each session builds its own FrameWriter and FramedReader', '', loc_of(rs))
     o = P.outer('rodbus::tcp::server::run_session')
-    c.ob('socket-owned', o.sig_in and 'TcpStream' in o.sig_in[0] and not o.sig_in[0].startswith('&'), 'run_session owns its socket by value (closed when the session ends)', str(o.sig_in[:1]), loc_of(o))
+    own = [t for t in (o.sig_in or []) if 'TcpStream' in t]
+    c.ob('socket-owned', len(own) == 1 and not own[0].startswith('&'), 'run_session owns its socket by value (closed when the session ends)', str(o.sig_in[:2]), loc_of(o))
     hb = P.fn(ST + '::handle')
     cl = [cs for cs in hb.calls('core::clone::Clone::clone')]
     c.ob('handlers-cloned', any('ServerHandlerMap' in cs.gargs or 'ServerHandlerMap' in (cs.resolved or '') for cs in cl), 'each session gets its own clone of the handler map (shared handlers are behind their own mutexes)', '', loc_of(hb))
